@@ -101,6 +101,7 @@ pub fn run_case(h0: &History, ctx: &mut Ctx) -> CaseResult {
     make_total(&mut h);
     h.ops.push(HOp::Eliminate);
     let mut st = init(&h)?;
+    ctx.class_if(h.shift > 0, "data_far_from_origin");
     // unpruned twin: same operations without any pruning
     let mut twin = init(&h)?;
     let mut twin_ok = true;
@@ -264,7 +265,7 @@ impl Property for C06 {
         "C06"
     }
     fn rule(&self) -> String {
-        "total binary trees built by pipelines over {apply_func, compose<false>, compose<true>, infeasible_elimination} from total constructors (new, from_aff, from_poly with else, schema trees, generated total trees with contradicting predicates), always ending with an elimination; after every elimination: (a) no node below the root has an exactly empty closed path polytope (exact LP), (b) no decision below the root has a single branch, (c) a second run leaves the arena identical and reports 0 infeasible LPs, (d) the final number of terminals lies between the numbers of full-dimensional and of closed non-empty regions of the unpruned composition of the same operands (both counted by exact LP). Non-trivial = an elimination removed a node and forwarded a decision; distinct = distinct serialised histories".into()
+        "total binary trees built by pipelines over {apply_func, compose<false>, compose<true>, infeasible_elimination} from total constructors (new, from_aff, from_poly with else, schema trees, generated total trees with contradicting predicates), always ending with an elimination; after every elimination: (a) no node below the root has an exactly empty closed path polytope (exact LP), (b) no decision below the root has a single branch, (c) a second run leaves the arena identical and reports 0 infeasible LPs, (d) the final number of terminals lies between the numbers of full-dimensional and of closed non-empty regions of the unpruned composition of the same operands (both counted by exact LP). Non-trivial = an elimination removed a node and forwarded a decision; distinct = distinct serialised histories; 1 history in 25 has its input-space data translated by 2^20..2^30 (data far from the origin)".into()
     }
     fn assumptions(&self) -> Vec<String> {
         vec!["with dyadic data an exactly empty closed region is empty by a margin >> 1e-8; a survivor that is exactly empty but not by the relaxed margin is counted as thin_survivor, not judged".into(), "the unpruned twin uses compose<false> (decided separately by C02)".into()]
@@ -282,7 +283,8 @@ impl Property for C06 {
             proptest::collection::vec(crate::gen::point_spec(MAXD), 4..8),
             proptest::collection::vec(crate::gen::lattice(MAXD), 1..=3),
         )
-            .prop_map(|(in_dim, out0, ctor, ops, points, anchors)| History { in_dim, out0, ctor, ops, points, anchors })
+            .prop_flat_map(|(in_dim, out0, ctor, ops, points, anchors)| (Just((in_dim, out0, ctor, ops, points, anchors)), prop_oneof![24 => Just(0i8), 1 => 20i8..=30]))
+            .prop_map(|((in_dim, out0, ctor, ops, points, anchors), shift)| History { in_dim, out0, ctor, ops, points, anchors, shift })
             .boxed()
     }
     fn run(&self, case: &History, ctx: &mut Ctx) -> CaseResult {
